@@ -20,7 +20,7 @@ RULE = (
     "G1: exhaustive small scope built directly with fcp.specs constructors and factorised along the rules' couplings — "
     "(A) all sequences of <= 2 structs (names {A,B}, 0-2 fields from {x,y}) x <= 2 enums (names {A,E}, 1-2 enumerators "
     "from {P,Q}x{0,1}), (B) all sequences of <= 3 bindings (name {A,B}, protocol {default,can,uart}, type {A,B,Z}, id "
-    "{none,1,2}) x every set of declared structs from {A (8 bits), B (72 bits)}, (C) <= 1 service x <= 2 devices listing "
+    "{none,0,1}) x every set of declared structs from {A (8 bits), B (72 bits)}, (C) <= 1 service x <= 2 devices listing "
     "subsets of {Svc, Ghost}; every struct gets its default binding; thorough enumerates each factor completely, quick "
     "a 1/50 sample of whole permutation groups. G2: Hypothesis full schemas through the real front end with 0-2 injected "
     "rule violations at random positions. Each tree is verified under 3 configurations (general / +fcp_dbc / +fcp_can_c "
@@ -108,7 +108,7 @@ STRUCT_OPTS = [(n, f) for n in "AB" for f in FIELD_LISTS]
 ENUMERATORS = [(n, v) for n in "PQ" for v in (0, 1)]
 ENUM_LISTS = [tuple(x) for n in (1, 2) for x in itertools.product(ENUMERATORS, repeat=n)]
 ENUM_OPTS = [(n, items) for n in "AE" for items in ENUM_LISTS]
-BINDING_OPTS = [(n, p, t, i) for n in "AB" for p in ("default", "can", "uart") for t in "ABZ" for i in (None, 1, 2)]
+BINDING_OPTS = [(n, p, t, i) for n in "AB" for p in ("default", "can", "uart") for t in "ABZ" for i in (None, 0, 1)]
 STRUCT_SETS = [(), ("A",), ("B",), ("A", "B"), ("B", "A")]
 
 
@@ -243,7 +243,8 @@ def run_g1(ctx: Ctx) -> None:
 
 # ------------------------------------------------------------------------------- G2
 INJECT = ["dup_type_struct", "dup_type_enum", "dup_field", "dup_binding", "dup_enumerator_name", "dup_enumerator_value",
-          "unknown_service", "can_unknown_struct", "dup_can_id", "wide_can_message", "second_struct", "same_id_other_protocol"]
+          "unknown_service", "can_unknown_struct", "dup_can_id", "wide_can_message", "second_struct", "same_id_other_protocol",
+          "dup_binding_via_alias", "same_name_other_protocol"]
 
 
 @st.composite
@@ -289,11 +290,21 @@ def g2_case(draw):
             s.decls.append(M.Impl("can", "NoSuchStructQ", None, [("id", 950)]))
         elif tw == "dup_can_id":
             st_ = structs[k % len(structs)]
-            s.decls.append(M.Impl("can", st_.name, "DupA", [("id", 777)]))
-            s.decls.append(M.Impl("can", structs[(k // 3) % len(structs)].name, "DupB", [("id", 777)]))
+            dup = [0, 777, 5, 2047][k % 4]
+            s.decls.append(M.Impl("can", st_.name, "DupA", [("id", dup)]))
+            s.decls.append(M.Impl("can", structs[(k // 3) % len(structs)].name, "DupB", [("id", dup)]))
         elif tw == "wide_can_message":
             s.decls.append(M.Struct("WideQ", [M.Field("a", 0, M.U(64)), M.Field("b", 1, M.U(1 + k % 8))]))
             s.decls.append(M.Impl("can", "WideQ", None, [("id", 960)]))
+        elif tw == "dup_binding_via_alias" and len(structs) >= 2:
+            a, b = structs[k % len(structs)], structs[(k + 1) % len(structs)]
+            # "impl spi for A as B" collides with "impl spi for B" on (name, protocol)
+            s.decls.append(M.Impl("spi", b.name, None, [("id", 930)]))
+            s.decls.append(M.Impl("spi", a.name, b.name, [("id", 931)]))
+        elif tw == "same_name_other_protocol":
+            st_ = structs[k % len(structs)]
+            s.decls.append(M.Impl("spi", st_.name, "SameNameQ", [("id", 940)]))
+            s.decls.append(M.Impl("i2c", st_.name, "SameNameQ", [("id", 941)]))
         elif tw == "second_struct":
             s.decls.append(M.Struct("SecondQ", [M.Field("a", 0, M.U(8))]))
         elif tw == "same_id_other_protocol":
